@@ -13,11 +13,6 @@ from .tree_common import check_from_list_rows, check_sep, resolve_const
 
 
 def check(ck: Checker) -> None:
-    from . import round4 as _r4
-
-    _r4.tree_load_rejects_only_nonlist(ck, "C20.listing")
-    _r4.trie_setitem_always_writes(ck, "C20.trie")
-    _r4.hashinfo_from_dict_strict(ck, "C20.hashinfo")
     ck.decided = [
         "C20.entry: DataIndexEntry.to_dict writes exactly the keys from_dict reads (meta, hash_info, loaded), each through the matching converter; loaded is written unconditionally",
         "C20.meta: every field Meta.to_dict emits is stored under its own attrs field name, guarded by a test of the same attribute; Optional[int] fields are guarded by `is not None` (0 survives); from_dict reads by field name",
@@ -39,6 +34,12 @@ def check(ck: Checker) -> None:
     check_sep(ck, "C20.listing")
     check_from_list_rows(ck, "C20.listing")
     _listing_meta(ck)
+    from . import round4 as _r4
+
+    _r4.tree_load_rejects_only_nonlist(ck, "C20.listing")
+    _r4.trie_setitem_always_writes(ck, "C20.trie")
+    _r4.hashinfo_from_dict_strict(ck, "C20.hashinfo")
+
 
 
 def _ret_name(fn: Func) -> Optional[str]:
